@@ -374,7 +374,30 @@ def _job(args):
                 except Exception as e:
                     bad = ["raised " + repr(e)[:120]]
                 if bad:
-                    mism.append(dict(inputs={k: v for k, v in inp.items() if not k.startswith("__")}, violated=bad[:4]))
+                    # the real code violates a predicate on the solver's model of a path the encoding proved: if the
+                    # harness's replay confirms it, it is a violation of the property demonstrated on the real code
+                    # (an assumption of the encoding - typically a stub contract - does not hold for the implementation)
+                    promoted = False
+                    pid_ = modname.rsplit(".", 1)[-1]
+                    covered = any(k.get("status", "open") == "open" and k["property"] == pid_ and k["harness"] == hname
+                                  and all(params.get(a) == b for a, b in k.get("params", {}).items())
+                                  for k in load_known())
+                    for lb in ([] if covered else bad[:4]):
+                        if not isinstance(lb, str) or lb.startswith("raised ") or h.replay is None:
+                            continue
+                        try:
+                            rep, detail = run_replay(h, _unjson(_jsonable(inp)), lb, params)
+                        except Exception:
+                            rep, detail = False, ""
+                        if rep:
+                            out["cex"].append(dict(label=lb, inputs=_jsonable(inp),
+                                                   info=dict(found_by="translator validation: model of a proven path"),
+                                                   reproduced=True, candidate_only=False,
+                                                   detail="[real code on the model of a proven path] " + str(detail)[:560]))
+                            promoted = True
+                            break
+                    if not promoted:
+                        mism.append(dict(inputs={k: v for k, v in inp.items() if not k.startswith("__")}, violated=bad[:4]))
                 else:
                     nval += 1
             out["validated"] = nval
